@@ -9,9 +9,17 @@
     (however far outside the range) never changes the matrix;
   * PERM: `u[v,i] = 1` sends input mode `k` to output mode `σ[k]`, is unitary, `perm_vector` reads
     the list back, the constructor's assertion accepts exactly the permutations;
-  * a slot bound to an expression always evaluates at the live values of its sub-parameters.
+  * a slot bound to an expression always evaluates at the live values of its sub-parameters;
+  * the Parameter LIFECYCLE (`Model/C14Life.lean`: constructor, `set_value`, `fix_value`, `reset`,
+    `set_periodic`, recycling by `_set_parameter`, `vars`/`assign`, `copy`) over EVERY history: a stored
+    value is inside the bounds, the wrap is idempotent and congruent, a fixed parameter never changes, `reset`
+    restores the symbol, a parameter's state depends only on the calls made on it;
+  * a parameter SHARED between slots of different declared ranges: the pinned `_set_parameter` makes it
+    periodic over the intersection, whose span is not a period of every slot — the matrix changes sign
+    (theorem with the witness `BS(theta=x, phi_tl=x)`, `x = 3π`); the repaired rule is sound for every history.
 -/
 import PercevalModel.Lemmas.C14Complex
+import PercevalModel.Lemmas.C14Life
 import PercevalModel.Num.GQ
 
 open Matrix PM Complex
@@ -287,6 +295,284 @@ theorem expr_depends_on_vars (e : Expr) (st₁ st₂ : Store)
     (h : ∀ x ∈ e.vars, st₁.env x = st₂.env x) : slotValue e st₁ = slotValue e st₂ :=
   e.eval_congr h
 
+/-! ### the Parameter lifecycle: every history of calls (`Model/C14Life.lean`) -/
+
+section life
+open PM.SM
+
+/-- `_check_value`: whatever it returns lies inside the bounds that exist (any flags, any bounds — also
+inverted or one-sided ones); otherwise it raised. -/
+theorem check_in_bounds {periodic : Bool} {lo hi : Option ℚ} {v w : ℚ}
+    (h : checkE periodic lo hi v = .inr w) : Par.InRange lo hi w :=
+  checkE_inr_inRange h
+
+/-- The wrap is idempotent: a stored value is stored again unchanged. -/
+theorem check_idempotent {periodic : Bool} {lo hi : Option ℚ} {v w : ℚ}
+    (h : checkE periodic lo hi v = .inr w) : checkE periodic lo hi w = .inr w :=
+  checkE_of_inRange periodic (checkE_inr_inRange h)
+
+/-- A periodic parameter with `lo < hi` never raises; the stored value is in `[lo, hi]` and congruent to
+the request modulo the span. -/
+theorem check_periodic_congruent {lo hi : ℚ} (h : lo < hi) (v : ℚ) :
+    ∃ w, checkE true (some lo) (some hi) v = .inr w ∧ lo ≤ w ∧ w ≤ hi ∧
+      ∃ k : ℤ, w = v + k * (hi - lo) :=
+  checkE_periodic h v
+
+/-- The constructor establishes the invariant "a defined value is inside `[min, max]`"… -/
+theorem init_value_in_bounds {value lo hi : Option ℚ} {periodic : Bool} {p : Par}
+    (h : Par.init value lo hi periodic = .inr p) : p.Inv := by
+  unfold Par.init at h
+  cases value with
+  | none =>
+    simp only [Sum.inr.injEq] at h; subst h
+    intro w hw; simp at hw
+  | some v =>
+    simp only at h
+    cases hc : checkE periodic lo hi v with
+    | inl e => simp [hc] at h
+    | inr w =>
+      simp only [hc, Sum.inr.injEq] at h; subst h
+      intro w' hw'
+      simp only [Option.some.injEq] at hw'; subst hw'
+      exact checkE_inr_inRange hc
+
+/-- …and EVERY history of `set_value` (forced or not, accepted or rejected), `fix_value`, `reset`,
+`set_periodic` keeps it (the bounds do not move in such a history). -/
+theorem life_value_in_bounds (sound : Bool) (p : Par) (ops : List POp) (hp : p.Inv)
+    (hops : ∀ op ∈ ops, op.isBind = false) : (exec (pstep sound) p ops).Inv :=
+  exec_inv sound p ops hp hops
+
+/-- Recycling a parameter in a component (`_set_parameter`) narrows the bounds WITHOUT looking at the value
+the parameter holds: the invariant can be lost (a value set before the parameter is plugged in)… -/
+theorem bind_can_leave_value_outside (sound : Bool) :
+    ∃ (p : Par) (ops : List POp), p.Inv ∧ ¬ (exec (pstep sound) p ops).Inv := by
+  refine ⟨⟨none, none, true, true, none⟩, [.set 7 false, .bind (some 0) (some 6) (some true)], ?_, ?_⟩
+  · intro w hw; simp at hw
+  · intro h
+    have := (h 7 (by cases sound <;> decide +kernel)).2 6 (by cases sound <;> decide +kernel)
+    norm_num at this
+
+/-- …and any later accepted `set_value` / `fix_value` restores it, whatever happened before. -/
+theorem accepted_set_restores_bounds (sound : Bool) (p : Par) (pre post : List POp) (op : POp)
+    (hop : (∃ v force, op = .set v force) ∨ ∃ v, op = .fix v)
+    (hok : (pstep sound (exec (pstep sound) p pre) op).2 = none)
+    (hpost : ∀ o ∈ post, o.isBind = false) :
+    (exec (pstep sound) p (pre ++ op :: post)).Inv := by
+  rw [exec_append, exec_cons]
+  refine exec_inv sound _ post ?_ hpost
+  rcases hop with ⟨v, force, rfl⟩ | ⟨v, rfl⟩
+  · exact pstep_set_ok_inv sound _ v force hok
+  · exact pstep_fix_ok_inv sound _ v hok
+
+/-- A fixed parameter never changes: over every history without `force=True` / `fix_value` its value is the
+initial one and it stays fixed (bounds may be narrowed, `set_value` calls are rejected). -/
+theorem fixed_never_changes (sound : Bool) (p : Par) (ops : List POp) (hs : p.fixed = true)
+    (hops : ∀ op ∈ ops, op.forces = false) :
+    (exec (pstep sound) p ops).val = p.val ∧ (exec (pstep sound) p ops).fixed = true := by
+  have hs' : p.sym = false := by simpa [Par.fixed] using hs
+  obtain ⟨h1, h2⟩ := exec_fixed sound p ops hs' hops
+  exact ⟨h1, by simp [Par.fixed, h2]⟩
+
+/-- `set_value` on a fixed parameter without `force` always raises — the error of the value check if the
+value is not acceptable (it is checked FIRST), `RuntimeError` otherwise — and changes nothing. -/
+theorem fixed_set_rejected (sound : Bool) (p : Par) (v : ℚ) (hs : p.fixed = true) :
+    (pstep sound p (.set v false)).1 = p ∧
+      (pstep sound p (.set v false)).2 =
+        some (match p.check v with | .inl e => e | .inr _ => .RuntimeError) := by
+  have hs' : p.sym = false := by simpa [Par.fixed] using hs
+  cases hc : p.check v with
+  | inl e => rw [pstep_set_inl sound false hc]; exact ⟨rfl, rfl⟩
+  | inr w => rw [pstep_set_inr sound false hc]; simp [hs']
+
+/-- `reset` on a variable parameter restores the symbol (no value, still variable) and leaves the bounds
+alone; on a fixed parameter it does nothing. -/
+theorem reset_restores_symbol (sound : Bool) (p : Par) :
+    (p.isVariable = true → (pstep sound p .reset).1 = { p with val := none } ∧
+        (pstep sound p .reset).1.defined = false ∧ (pstep sound p .reset).1.isVariable = true) ∧
+      (p.fixed = true → (pstep sound p .reset).1 = p) := by
+  constructor
+  · intro h
+    have h' : p.sym = true := h
+    simp [pstep, h', Par.defined, Par.isVariable]
+  · intro h
+    have h' : p.sym = false := by simpa [Par.fixed] using h
+    simp [pstep, h']
+
+/-- Only `fix_value` ends the variable life of a parameter: over every history without it `is_variable`
+keeps its initial value. -/
+theorem variable_until_fix (sound : Bool) (p : Par) (ops : List POp)
+    (hops : ∀ op ∈ ops, op.isFix = false) :
+    (exec (pstep sound) p ops).isVariable = p.isVariable :=
+  exec_sym sound p ops hops
+
+/-- Parameter objects do not interfere: after any history of calls addressed to named objects, the state of
+`y` is the result of the calls addressed to `y` alone. -/
+theorem param_state_local (sound : Bool) (st : LStore) (ops : List (String × POp)) (y : String) :
+    (exec (sstep sound) st (ops.map fun o => SOp.par o.1 o.2)) y =
+      (st y).map fun p => exec (pstep sound) p ((ops.filter fun o => o.1 = y).map (·.2)) :=
+  exec_par_local sound st ops y
+
+/-- `component.assign(d)` is the sequence of `set_value` calls of its items, cut at the first one that raises
+(what was assigned before stays assigned), all of them when it returns normally; only variables of the
+component are touched. -/
+theorem assign_is_prefix_of_sets (sound : Bool) (st : LStore) (c : Comp) (kv : List (String × ℚ)) :
+    ∃ pre, pre <+: kv ∧
+      (sstep sound st (.assign c kv)).1 =
+        exec (sstep sound) st (pre.map fun o => SOp.par o.1 (.set o.2 false)) ∧
+      ((sstep sound st (.assign c kv)).2 = none → pre = kv) ∧ ∀ o ∈ pre, o.1 ∈ vars st c :=
+  assignRun_prefix sound (vars st c) st kv
+
+/-- `copy()` of a parameter whose value is inside its bounds keeps value, bounds and flag; the copy is fixed
+exactly when the original was defined. -/
+theorem copy_preserves (p : Par) (hp : p.Inv) : p.copy = .inr { p with sym := p.val.isNone } :=
+  Par.copy_of_inv p hp
+
+end life
+
+/-! ### a parameter shared between slots of different declared ranges -/
+
+section shared
+open PM.SM
+
+/-- The bounds of a shared parameter are the intersection of the ranges of its slots (and its own), in
+whatever order the slots are filled. -/
+theorem shared_bounds_order_independent (sound : Bool) (p : Par) {s₁ s₂ : List (ℚ × ℚ)} (h : s₁.Perm s₂) :
+    (bindAll sound p s₁).lo = (bindAll sound p s₂).lo ∧ (bindAll sound p s₁).hi = (bindAll sound p s₂).hi := by
+  rw [bindAll_lo, bindAll_lo, bindAll_hi, bindAll_hi]
+  constructor
+  · have : RightCommutative fun (a : Option ℚ) (s : ℚ × ℚ) => narrowLo a (some s.1) :=
+      ⟨fun a x y => narrowLo_comm a (some x.1) (some y.1)⟩
+    exact h.foldl_eq _
+  · have : RightCommutative fun (a : Option ℚ) (s : ℚ × ℚ) => narrowHi a (some s.2) :=
+      ⟨fun a x y => narrowHi_comm a (some x.2) (some y.2)⟩
+    exact h.foldl_eq _
+
+/-- Two slots: the narrower interval wins. -/
+theorem shared_bounds_two (sound : Bool) (l₁ h₁ l₂ h₂ : ℚ) :
+    (bindAll sound ⟨none, none, true, true, none⟩ [(l₁, h₁), (l₂, h₂)]).lo = some (max l₁ l₂) ∧
+      (bindAll sound ⟨none, none, true, true, none⟩ [(l₁, h₁), (l₂, h₂)]).hi = some (min h₁ h₂) := by
+  rw [bindAll_lo, bindAll_hi]
+  simp [narrowLo_some, narrowHi_some]
+
+/-- The pinned `_set_parameter` makes the parameter periodic over that intersection, whatever its span. -/
+theorem bind_current_periodic (p : Par) (lo hi : Option ℚ) :
+    (pstep false p (.bind lo hi (some true))).1.periodic = true := rfl
+
+/-- Trigonometry of the defect: if `θ` and `φ_tl` hold the same parameter and its value is moved by `k` times
+`2π` (the span of the intersection `[0,4π] ∩ [0,2π]`), the documented matrix is multiplied by `(-1)^k`. -/
+theorem bsDoc_shared_shift (conv : Conv) (v φbl φtr φbr : ℝ) (k : ℤ) :
+    bsDoc conv (v + k * (2 * Real.pi)) (v + k * (2 * Real.pi)) φbl φtr φbr =
+      ((-1 : ℂ) ^ k) • bsDoc conv v v φbl φtr φbr := by
+  have hc : Real.cos ((v + k * (2 * Real.pi)) / 2) = (-1) ^ k * Real.cos (v / 2) := by
+    rw [← Real.cos_add_int_mul_pi]; congr 1; ring
+  have hs : Real.sin ((v + k * (2 * Real.pi)) / 2) = (-1) ^ k * Real.sin (v / 2) := by
+    rw [← Real.sin_add_int_mul_pi]; congr 1; ring
+  have hp : ∀ y : ℝ, ph (v + k * (2 * Real.pi) + y) = ph (v + y) := by
+    intro y
+    have : v + k * (2 * Real.pi) + y = (v + y) + k * (2 * Real.pi) := by ring
+    rw [this, ph_periodic]
+  cases conv <;> ext i j <;> fin_cases i <;> fin_cases j <;>
+    simp [bsDoc, hc, hs, hp, Complex.ofReal_zpow] <;> ring
+
+/-- A documented beam-splitter matrix is never its own opposite (it is unitary). -/
+theorem bsDoc_ne_neg (conv : Conv) (θ φtl φbl φtr φbr : ℝ) :
+    bsDoc conv θ φtl φbl φtr φbr ≠ -bsDoc conv θ φtl φbl φtr φbr := by
+  intro h
+  obtain ⟨hU, _⟩ := (bs_complex conv θ φtl φbl φtr φbr).2.2
+  set M := bsDoc conv θ φtl φbl φtr φbr with hM
+  have z : ∀ i j, M i j = 0 := by
+    intro i j
+    have e : M i j = -M i j := by
+      have e' := congrFun (congrFun h i) j
+      rwa [Matrix.neg_apply] at e'
+    have : (2 : ℂ) * M i j = 0 := by linear_combination e
+    rcases mul_eq_zero.1 this with h2 | h2
+    · norm_num at h2
+    · exact h2
+  have e00 := congrFun (congrFun hU 0) 0
+  simp [Matrix.mul_apply, Fin.sum_univ_two, z] at e00
+
+/-- EXACT characterisation of the shared-parameter behaviour of the pinned code: `x` drives `θ` and `φ_tl`
+of one beam splitter, its range is `[0, 2π]` periodic; `set_value(v)` stores `w = v + k·2π ∈ [0, 2π]` and
+the matrix is `(-1)^k` times the documented matrix at `v`; it is the documented matrix iff `k` is even. -/
+theorem shared_theta_phase_sign (conv : Conv) (v φbl φtr φbr : ℝ) :
+    ∃ (w : ℝ) (k : ℤ), wrap true (some 0) (some (2 * Real.pi)) v = some w ∧ 0 ≤ w ∧ w ≤ 2 * Real.pi ∧
+      w = v + k * (2 * Real.pi) ∧
+      bsDoc conv w w φbl φtr φbr = ((-1 : ℂ) ^ k) • bsDoc conv v v φbl φtr φbr ∧
+      (bsDoc conv w w φbl φtr φbr = bsDoc conv v v φbl φtr φbr ↔ Even k) := by
+  obtain ⟨w, hw, h0, h1, k, hk⟩ := wrap_spec (K := ℝ) (lo := 0) (hi := 2 * Real.pi) (by positivity) v
+  rw [sub_zero] at hk
+  have hshift := bsDoc_shared_shift conv v φbl φtr φbr k
+  rw [← hk] at hshift
+  refine ⟨w, k, hw, h0, h1, hk, hshift, ?_⟩
+  rw [hshift]
+  constructor
+  · intro he
+    rcases Int.even_or_odd k with hev | hodd
+    · exact hev
+    · exfalso
+      rw [hodd.neg_one_zpow, neg_one_smul] at he
+      exact bsDoc_ne_neg conv v v φbl φtr φbr he.symm
+  · intro hev
+    rw [hev.neg_one_zpow, one_smul]
+
+/-- The pinned code violates the property on a shared parameter: `x = P("x"); BS(theta=x, phi_tl=x);
+x.set_value(3π)` — `3π` is inside the nominal range `[0, 4π]` of `θ` — stores `π`, and the matrix is the
+OPPOSITE of the documented matrix at `θ = φ_tl = 3π`. -/
+theorem shared_range_fails_on_current_code (conv : Conv) (φbl φtr φbr : ℝ) :
+    wrap true (some 0) (some (2 * Real.pi)) (3 * Real.pi) = some Real.pi ∧
+      bsDoc conv Real.pi Real.pi φbl φtr φbr = -bsDoc conv (3 * Real.pi) (3 * Real.pi) φbl φtr φbr ∧
+      bsDoc conv Real.pi Real.pi φbl φtr φbr ≠ bsDoc conv (3 * Real.pi) (3 * Real.pi) φbl φtr φbr := by
+  obtain ⟨w, k, hw, h0, h1, hk, hsh, _⟩ := shared_theta_phase_sign conv (3 * Real.pi) φbl φtr φbr
+  have hpi := Real.pi_pos
+  have hk1 : k = -1 := by
+    have a : (-2 : ℝ) < k := by
+      by_contra hc
+      have : (k : ℝ) ≤ -2 := not_lt.1 hc
+      nlinarith
+    have b : (k : ℝ) < 0 := by
+      by_contra hc
+      have : (0 : ℝ) ≤ k := not_lt.1 hc
+      nlinarith
+    have a' : (-2 : ℤ) < k := by exact_mod_cast a
+    have b' : k < (0 : ℤ) := by exact_mod_cast b
+    omega
+  subst hk1
+  have hwpi : w = Real.pi := by rw [hk]; push_cast; ring
+  subst hwpi
+  have hneg : bsDoc conv Real.pi Real.pi φbl φtr φbr = -bsDoc conv (3 * Real.pi) (3 * Real.pi) φbl φtr φbr := by
+    rw [hsh]; simp
+  refine ⟨hw, hneg, ?_⟩
+  rw [hneg]
+  exact (bsDoc_ne_neg conv _ _ _ _ _).symm
+
+/-- The repaired `_set_parameter` is sound over EVERY history in which the parameter is driven by components
+(two-sided periodic slots, no explicit `set_periodic`; any `set_value`/`fix_value`/`reset` in between, any
+initial state that is not yet plugged anywhere): whatever is then stored by the value check is congruent to
+the request modulo the span of EVERY slot the parameter drives — so (`wrap_preserves_matrix_*`) no
+component's matrix changes; when the ranges differ the parameter is a bounded one and stores the value as given. -/
+theorem shared_repaired_sound (p : Par) (ops : List POp) (hops : ∀ op ∈ ops, op.plain = true)
+    (v w : ℚ) (hw : (exec (pstep true) p ops).check v = .inr w) :
+    ∀ s ∈ slotsOf ops, s.1 < s.2 → ∃ k : ℤ, w = v + k * (s.2 - s.1) := by
+  intro s hs hlt
+  have hcov := exec_plain_covers p [] ops hops (fun _ s hs => by simp at hs) (fun h => absurd rfl h) s (Or.inr hs)
+  set q := exec (pstep true) p ops with hq
+  cases hper : q.periodic with
+  | false =>
+    unfold Par.check at hw
+    rw [hper] at hw
+    exact ⟨0, by rw [checkE_nonperiodic hw]; simp⟩
+  | true =>
+    obtain ⟨hl, hh⟩ := hcov hper
+    unfold Par.check at hw
+    rw [hper, hl, hh] at hw
+    obtain ⟨w', hw', _, _, k, hk⟩ := checkE_periodic hlt v
+    rw [hw'] at hw
+    simp only [Sum.inr.injEq] at hw
+    exact ⟨k, hw ▸ hk⟩
+
+end shared
+
 /-! ### non-vacuity -/
 
 /-- `bs_isUnitary`, `wp_isUnitary`, `pr_isUnitary`, `ps_isUnitary`: the hypotheses hold at `GQ`
@@ -337,6 +623,73 @@ example : slotValue (.add (.mul (.var "a") (.const 2)) (.var "b"))
 example : slotValue (.mul (.var "b") (.const 2)) exStore =
     slotValue (.mul (.var "b") (.const 2)) (exStore.run [("a", 9)]) ∧
     exStore.env "a" ≠ (exStore.run [("a", 9)]).env "a" := by
+  decide +kernel
+
+/-! non-vacuity of the lifecycle / shared-range theorems -/
+
+/-- a fresh variable parameter on `[0, 4]`, periodic -/
+def pFresh : Par := ⟨some 0, some 4, true, true, none⟩
+
+/-- `life_value_in_bounds`, `check_*`: a history with a wrapped call, a rejected call on a fixed parameter
+(`RuntimeError`), a forced one, a `reset` that does nothing on a fixed parameter. -/
+example : pFresh.Inv ∧
+    (SM.run (pstep true) pFresh [.set 9 false, .fix (-1), .set 2 false, .set 6 true, .reset]) =
+      (⟨some 0, some 4, true, false, some 2⟩, [none, none, some .RuntimeError, none, none]) := by
+  refine ⟨fun w hw => by simp [pFresh] at hw, by decide +kernel⟩
+
+/-- exception classes of the value check: out of non-periodic bounds, a missing bound (the message cannot be
+formatted), `min == max`; `fix_value` rejected leaves a fixed, undefined parameter. -/
+example : checkE false (some 0) (some 1) 2 = .inl .ValueError ∧ checkE true none (some 1) 2 = .inl .TypeError ∧
+    checkE true (some 1) (some 1) 5 = .inl .ZeroDivisionError ∧ checkE true (some 1) (some 1) 1 = .inr 1 ∧
+    checkE true (some 2) (some 0) 5 = .inl .ValueError ∧
+    pstep true ⟨some 0, some 1, false, true, none⟩ (.fix 5) = (⟨some 0, some 1, false, false, none⟩, some .ValueError) := by
+  decide +kernel
+
+/-- `accepted_set_restores_bounds`: value set before the parameter is plugged into a narrower slot (stale,
+outside), then an accepted call. `fixed_never_changes`: the hypothesis holds for a parameter made from a number. -/
+example : ¬ (SM.exec (pstep true) ⟨none, none, true, true, none⟩ [.set 7 false, .bind (some 0) (some 6) (some true)]).Inv ∧
+    (pstep true (SM.exec (pstep true) ⟨none, none, true, true, none⟩ [.set 7 false, .bind (some 0) (some 6) (some true)])
+      (.set 8 false)) = (⟨some 0, some 6, true, true, some 2⟩, none) ∧
+    (Par.init (some 9) (some 0) (some 4) true) = .inr ⟨some 0, some 4, true, false, some 1⟩ := by
+  refine ⟨fun h => ?_, by decide +kernel, by decide +kernel⟩
+  have := (h 7 (by decide +kernel)).2 6 (by decide +kernel)
+  norm_num at this
+
+/-- `copy_preserves` needs the value inside the bounds: the copy of a stale value is wrapped again (here `7` on
+`[0, 6]` becomes `1`), and a stale value of a non-periodic parameter makes `copy()` raise. -/
+example : (⟨some 0, some 6, true, true, some 7⟩ : Par).copy = .inr ⟨some 0, some 6, true, false, some 1⟩ ∧
+    (⟨some 0, some 6, false, true, some 7⟩ : Par).copy = .inl .ValueError ∧
+    (⟨some 0, some 6, true, true, some 5⟩ : Par).copy = .inr ⟨some 0, some 6, true, false, some 5⟩ := by
+  decide +kernel
+
+/-- `shared_repaired_sound` / the defect at ℚ (`4` standing for `4π`, `2` for `2π`): `x` plugged into a slot on
+`[0,4]` and a slot on `[0,2]`.  Pinned rule: periodic on `[0,2]`, `set_value(3)` stores `1 = 3 - 1·2` (odd
+multiple of the narrower span: the `[0,4]` slot sees another angle).  Repaired rule: bounded on `[0,2]`,
+`set_value(3)` raises and `set_value(3/2)` stores `3/2`; two slots of the same range stay periodic. -/
+example :
+    bindAll false ⟨none, none, true, true, none⟩ [(0, 4), (0, 2)] = ⟨some 0, some 2, true, true, none⟩ ∧
+    (bindAll false ⟨none, none, true, true, none⟩ [(0, 4), (0, 2)]).check 3 = .inr 1 ∧
+    bindAll true ⟨none, none, true, true, none⟩ [(0, 4), (0, 2)] = ⟨some 0, some 2, false, true, none⟩ ∧
+    bindAll true ⟨none, none, true, true, none⟩ [(0, 2), (0, 4), (0, 2)] = ⟨some 0, some 2, false, true, none⟩ ∧
+    (bindAll true ⟨none, none, true, true, none⟩ [(0, 4), (0, 2)]).check 3 = .inl .ValueError ∧
+    (bindAll true ⟨none, none, true, true, none⟩ [(0, 4), (0, 2)]).check (3 / 2) = .inr (3 / 2) ∧
+    bindAll true ⟨none, none, true, true, none⟩ [(0, 2), (0, 2)] = ⟨some 0, some 2, true, true, none⟩ ∧
+    (bindAll true ⟨none, none, true, true, none⟩ [(0, 2), (0, 2)]).check 7 = .inr 1 ∧
+    (∀ op ∈ [POp.bind (some 0) (some 2) (some true), .set 7 false, .bind (some 0) (some 2) (some true)],
+      op.plain = true) ∧
+    slotsOf [POp.bind (some 0) (some 2) (some true), .set 7 false, .bind (some 0) (some 2) (some true)] =
+      [(0, 2), (0, 2)] := by
+  decide +kernel
+
+/-- `param_state_local`, `assign_is_prefix_of_sets`: two objects; `assign` stops at the unknown key and keeps
+what it assigned before. -/
+def exL : LStore := fun x =>
+  if x = "a" then some pFresh else if x = "f" then some ⟨none, none, true, false, some 1⟩ else none
+
+example : vars exL ["a", "f", "a"] = ["a", "a"] ∧
+    (sstep true exL (.assign ["a", "f"] [("a", 9), ("f", 2), ("a", 3)])).2 = some .KeyError ∧
+    ((sstep true exL (.assign ["a", "f"] [("a", 9), ("f", 2), ("a", 3)])).1 "a") =
+      some ⟨some 0, some 4, true, true, some 1⟩ := by
   decide +kernel
 
 end PM.C14
